@@ -65,6 +65,42 @@ MUTANTS = [
         "    def reset_strand(self, new_strand: Strand) -> \"SingleInterval\":\n        new_parent = self.parent.strip_location_info() if self.parent else None\n        new = SingleInterval(self.start, self.end, new_strand, parent=new_parent)\n        new._sequence = self._sequence\n        return new\n",
         "reset_strand carries the lazily extracted sequence over to the new location (wrong only if extract_sequence was called before)",
     ),
+    (
+        "c08_digest_str_of_set", "C08", G + "util/hashing.py",
+        "            elif isinstance(member, set):\n                yield str(_order_set(member))\n",
+        "            elif isinstance(member, set):\n                yield str(member)\n",
+        "digest_object hashes str(set): identifier depends on the interpreter's hash seed",
+    ),
+    (
+        "c08_export_qualifiers_unsorted", "C08", G + "gene/interval.py",
+        "            return {key: sorted(vals) for key, vals in self.qualifiers.items()}\n",
+        "            return {key: list(vals) for key, vals in self.qualifiers.items()}\n",
+        "to_dict emits qualifier values in set order (differs between processes)",
+    ),
+    (
+        "c08_guid_ignores_strand", "C08", G + "gene/feature.py",
+        "                self._genomic_starts,\n                self._genomic_ends,\n                self.strand,\n                self.qualifiers,\n                self.sequence_name,\n                self.feature_types,",
+        "                self._genomic_starts,\n                self._genomic_ends,\n                self.qualifiers,\n                self.sequence_name,\n                self.feature_types,",
+        "FeatureInterval identifier no longer depends on strand",
+    ),
+    (
+        "c08_transcript_from_dict_drops_product", "C08", G + "gene/transcript.py",
+        "            protein_id=vals[\"protein_id\"],\n            product=vals[\"product\"],\n            parent_or_seq_chunk_parent=parent_or_seq_chunk_parent,\n        )\n\n    @staticmethod\n    def from_location(",
+        "            protein_id=vals[\"protein_id\"],\n            parent_or_seq_chunk_parent=parent_or_seq_chunk_parent,\n        )\n\n    @staticmethod\n    def from_location(",
+        "TranscriptInterval.from_dict drops the product field",
+    ),
+    (
+        "c08_model_drops_is_primary", "C08", G + "io/models.py",
+        "            is_primary_tx=self.is_primary_tx,\n            transcript_id=self.transcript_id,",
+        "            transcript_id=self.transcript_id,",
+        "TranscriptIntervalModel.to_transcript_interval drops is_primary_tx (schema path only)",
+    ),
+    (
+        "c08_variant_from_dict_drops_parent_again", "C08", G + "gene/variants.py",
+        "            vals[\"qualifiers\"],\n            parent_or_seq_chunk_parent,\n        )",
+        "            vals[\"qualifiers\"],\n        )",
+        "reverts fix fa51ec4: VariantInterval.from_dict ignores its parent",
+    ),
 ]
 
 # helper text appended for the mutant above (kept separate to keep the table readable)
